@@ -57,9 +57,10 @@ type Action struct {
 // Resolve transforms an AST schema into a fully resolved schema.
 func Resolve(s *ast.Schema) (*Schema, error) {
 	r := &resolverState{
-		entityTypes: make(map[types.EntityType]bool),
-		enumTypes:   make(map[types.EntityType]bool),
-		commonTypes: make(map[types.Path]ast.IsType),
+		entityTypes:  make(map[types.EntityType]bool),
+		enumTypes:    make(map[types.EntityType]bool),
+		commonTypes:  make(map[types.Path]ast.IsType),
+		commonTypeNS: make(map[types.Path]types.Path),
 	}
 
 	// Phase 1: Register all declarations
@@ -126,6 +127,10 @@ type resolverState struct {
 	entityTypes map[types.EntityType]bool
 	enumTypes   map[types.EntityType]bool
 	commonTypes map[types.Path]ast.IsType
+	// commonTypeNS records the namespace each common type was declared in. The body of a common
+	// type is always resolved in that namespace; it cannot be recovered from the qualified name,
+	// because the JSON schema format accepts names that themselves contain "::" or start with ':'.
+	commonTypeNS map[types.Path]types.Path
 }
 
 func (r *resolverState) registerDecls(nsName types.Path, entities ast.Entities, enums ast.Enums, commonTypes ast.CommonTypes) error {
@@ -139,7 +144,9 @@ func (r *resolverState) registerDecls(nsName types.Path, entities ast.Entities, 
 		r.enumTypes[qualifyEntityType(nsName, name)] = true
 	}
 	for name, ct := range commonTypes {
-		r.commonTypes[qualifyPath(nsName, name)] = ct.Type
+		path := qualifyPath(nsName, name)
+		r.commonTypes[path] = ct.Type
+		r.commonTypeNS[path] = nsName
 	}
 	return nil
 }
@@ -201,7 +208,7 @@ func (r *resolverState) detectCommonTypeCycles() error {
 	// Build dependency graph
 	deps := make(map[types.Path][]types.Path)
 	for name, typ := range r.commonTypes {
-		ns := extractNamespace(name)
+		ns := r.commonTypeNS[name]
 		refs := collectTypeRefs(typ)
 		for _, ref := range refs {
 			resolved := r.resolveTypeRefPath(ns, ref)
@@ -442,7 +449,7 @@ func (r *resolverState) resolveTypeRef(ns types.Path, ref ast.TypeRef) (IsType, 
 		qualifiedPath := types.Path(string(ns) + "::" + string(ref))
 		// 1. Check NS::N as common type
 		if ct, ok := r.commonTypes[qualifiedPath]; ok {
-			return r.resolveType(ns, ct)
+			return r.resolveType(r.commonTypeNS[qualifiedPath], ct)
 		}
 		// 2. Check NS::N as entity type
 		qualifiedET := types.EntityType(qualifiedPath)
@@ -454,7 +461,7 @@ func (r *resolverState) resolveTypeRef(ns types.Path, ref ast.TypeRef) (IsType, 
 	// 3. Check N as common type in empty namespace
 	path := types.Path(ref)
 	if ct, ok := r.commonTypes[path]; ok {
-		return r.resolveType("", ct)
+		return r.resolveType(r.commonTypeNS[path], ct)
 	}
 
 	// 4. Check N as entity type in empty namespace
@@ -484,8 +491,7 @@ func (r *resolverState) resolveQualifiedTypeRef(ref ast.TypeRef) (IsType, error)
 	// Try as common type first
 	path := types.Path(ref)
 	if ct, ok := r.commonTypes[path]; ok {
-		ns := extractNamespace(path)
-		return r.resolveType(ns, ct)
+		return r.resolveType(r.commonTypeNS[path], ct)
 	}
 	// Try as entity type
 	et := types.EntityType(ref)
@@ -622,12 +628,4 @@ func qualifyActionType(ns types.Path) types.EntityType {
 		return types.EntityType(string(ns) + "::Action")
 	}
 	return types.EntityType("Action")
-}
-
-func extractNamespace(path types.Path) types.Path {
-	s := string(path)
-	if idx := strings.LastIndex(s, "::"); idx >= 0 {
-		return types.Path(s[:idx])
-	}
-	return ""
 }
